@@ -78,8 +78,11 @@ fn reparse_formula_hack(formula: &str, worksheets: &[String]) -> Result<String, 
     let defined_names = Vec::new();
     let tables = HashMap::new();
     let mut parser = new_parser_english(worksheets.to_owned(), defined_names, tables);
+    let sheet = worksheets
+        .first()
+        .ok_or_else(|| XlsxError::Xml("Workbook with defined names but no worksheets".to_string()))?;
     let cell_reference = CellReferenceRC {
-        sheet: worksheets[0].clone(),
+        sheet: sheet.clone(),
         column: 1,
         row: 1,
     };
